@@ -95,6 +95,24 @@ def tolerance(cls, t_rel, d_rel, near="surface"):
     return float("inf") if v < 0 else max(v, 1e-6)
 
 
+def accuracy_band(cls, body, loc):
+    """The calibrated band of this library's own accuracy (relative) at local observers `loc`: the C01 envelope, and
+    inf where C01 asserts nothing (unchecked buckets; the near-axis cone of a CylinderSegment, open finding KF-C01-1).
+    Relation checks (C03, C12, ...) use it as a conditioning oracle: where the value itself is only defined up to this
+    band, two routes to it can differ by as much."""
+    loc = np.atleast_2d(np.asarray(loc, dtype=float))
+    if cls == "Dipole" or cls not in tolerances():
+        return np.full(len(loc), 1e-6)
+    dist = body.dist(loc) / body.L
+    tsp, tname = geom.special_dist(body, loc, with_name=True)
+    tsp = tsp / body.L
+    out = np.array([tolerance(cls, tsp[i], dist[i], tname[i]) for i in range(len(loc))])
+    if isinstance(body, geom.CylSeg) and not body.full and cls == "CylinderSegment":
+        raxis = np.hypot(loc[:, 0], loc[:, 1]) / np.maximum(body.L, np.linalg.norm(loc, axis=1))
+        out[raxis < 1e-3] = np.inf
+    return out
+
+
 def budget(tier):
     return {"examples": 2400 if tier == "quick" else 60000, "shrink": False, "shards": 48 if tier == "quick" else 128}
 
